@@ -63,7 +63,7 @@ def gen(rng, tier):
             cases.append({"op": "log_encode", "input": [[1, [["lin", [[[5, f64(1.0)]], f64(0.0)]]], dvs, [], [], [], [], [], []], 5],
                           "stream": "fixed-above"})
     # other encoded ids than 5 (0, large ids) among variables listed in any order
-    for t in (0, 1, 2 ** 32 + 7, 2 ** 62):
+    for t in (0, 1, 2 ** 32 + 7, 2 ** 62, 2 ** 63 - 1, 2 ** 63, 2 ** 63 + 5, 2 ** 64 - 10):
         for w in (1, 2, 3, 6):
             cases.append({"op": "log_encode", "input": [inst_with(rng, 2, (0.0, float(w)), target=t), t], "stream": "target-id"})
     n = 150 if tier == "quick" else 4000
